@@ -67,7 +67,38 @@ func runC14(w *World) {
 	s := NewStd1(w, Std1Opts{Dir: dir, Passive: dir == DirIn && w.Draw(2, "passive") == 1, LocalAS: localAS, LocalID: rid,
 		LocalHold: hold, RemoteHold: 90, IdleHold: time.Second,
 		Configure: func(p *PeerH) {
+			var static []corebgp.Capability
+			staticMode := w.Chance(1, 4, "static-caps")
 			p.Plug.CapsFn = func(call int) []corebgp.Capability {
+				if staticMode {
+					// a plugin that hands out the very same slice on every call (a
+					// package-level table, say) and expects it to stay what it is
+					if static == nil {
+						static = genCaps()
+						if static == nil {
+							static = []corebgp.Capability{}
+						}
+						w.Probe("plugin-returns-the-same-slice-every-call")
+					} else if len(capLists) > 0 {
+						want := capLists[0]
+						same := len(want) == len(static)
+						for i := 0; same && i < len(want); i++ {
+							same = want[i].Code == static[i].Code && bytes.Equal(want[i].Value, static[i].Value)
+						}
+						if !same {
+							w.Violate("C14/plugin-slice-modified", "the capability slice the plugin returned from GetCapabilities was modified by corebgp (the plugin returns the same slice every time, so later OPENs no longer carry its capabilities)")
+						}
+					}
+					cp := make([]corebgp.Capability, len(static))
+					for i, c := range static {
+						cp[i] = corebgp.Capability{Code: c.Code, Value: append([]byte(nil), c.Value...)}
+					}
+					if len(capLists) > 0 {
+						cp = capLists[0] // the plugin's table never changes
+					}
+					capLists = append(capLists, cp)
+					return static
+				}
 				l := genCaps()
 				// keep our own deep copy: the plugin's slice belongs to corebgp now
 				cp := make([]corebgp.Capability, len(l))
@@ -90,8 +121,12 @@ func runC14(w *World) {
 	for k := 0; k < nconn; k++ {
 		c := s.E.OpenConn(p, dir, time.Minute)
 		if c == nil {
-			w.HarnessError("C14: no connection %d (dir %v)", k, dir)
-			return
+			if k == 0 {
+				w.HarnessError("C14: no connection (dir %v)", dir)
+				return
+			}
+			w.Probe("no-further-connection") // reconnecting is C11's business
+			break
 		}
 		// wait until corebgp wrote something on it or closed it
 		w.WaitUntil("c14.first", time.Minute, func() bool { return c.OutLen() > 0 || c.LocalClosed() })
